@@ -41,7 +41,8 @@ static int g_fault_persistent = 0;
 static int g_fault_partial = 0;    /* a failing write first writes half of the bytes */
 static long g_fault_count = 0;     /* faultable calls seen so far */
 static long g_fault_fired = 0;
-static char g_fault_kinds[64] = "";/* comma list of call kinds to consider ("" = all): open,write,sync,rename,unlink,close,mkdir,link,read,mmap */
+static char g_fault_kinds[64] = "";
+static __thread int t_nofault = 0;   /* set while the harness itself reads files (table dumps) *//* comma list of call kinds to consider ("" = all): open,write,sync,rename,unlink,close,mkdir,link,read,mmap */
 
 static const char *jrel(const char *p) {
   size_t n = strlen(g_jroot);
@@ -82,7 +83,7 @@ static int kind_enabled(const char *k) {
 /* returns errno to inject (0 = none) */
 static int fault_check(const char *kind, const char *rel) {
   long k;
-  if (!g_journal || rel == NULL) return 0;
+  if (!g_journal || rel == NULL || t_nofault) return 0;
   if (!kind_enabled(kind)) return 0;
   /* the info log is not part of the database's data path */
   if (!strcmp(rel, "LOG") || !strcmp(rel, "LOG.old")) return 0;
